@@ -218,6 +218,12 @@ func (r *Run) Finish() {
 	}
 	sort.Strings(ks)
 	cov["known_findings_seen"] = ks
+	// VERIF_OUT (only set by tools/seedrun.sh and tools/mut.sh): evidence and replays of runs against a
+	// deliberately broken tree go elsewhere, so that the committed evidence always describes /repo itself.
+	Root := Root
+	if o := os.Getenv("VERIF_OUT"); o != "" {
+		Root = o
+	}
 	// replays
 	os.MkdirAll(filepath.Join(Root, "replays"), 0o755)
 	if old, _ := filepath.Glob(filepath.Join(Root, "replays", fmt.Sprintf("%s-%s-*.json", r.Property, r.Tier))); old != nil {
